@@ -1,6 +1,6 @@
 (* C10 — object and probe constraints.  Executable model of
      quantem.diffractive_imaging.object_models.ObjectConstraints.apply_hard_constraints
-        (complex / pure_phase objects in amplitude-phase form, potential objects, FOV mask AS WRITTEN,
+        (complex / pure_phase objects in amplitude-phase form, potential objects, FOV mask (repaired),
          baseline offset, positivity clamp, slice tying; no Gaussian / Butterworth filter)
      quantem.tomography.object_models.ObjectConstraints.apply_hard_constraints (clamp, shrinkage)
      quantem.diffractive_imaging.probe_models.ProbeConstraints._probe_orthogonalization_constraint
@@ -47,12 +47,25 @@ Definition polar := (Q * Q)%type.
 Definition use_mask (cfg : ocfg) (mask : option (list Q)) : option (list Q) :=
   if apply_fov_mask cfg then mask else None.
 
-(* one pixel of the complex / pure_phase branch.
-     amp   = clamp(|obj|, 0, 1)  (complex)   |   1.0  (pure_phase)
-     phase = angle - angle.mean()
-     masked:   obj2 = amp * mask * exp(1j * phase * mask);  then  obj2 *= mask     (as written)
-     unmasked: obj2 = amp * exp(1j * phase) *)
+(* one pixel of the complex / pure_phase branch (with fixes/C10-pure-phase-fov-mask.diff applied).
+     amp   = clamp(|obj|, 0, 1) [* mask]   (complex)   |   1.0  (pure_phase: the mask never touches it)
+     phase = (angle - angle.mean()) [* mask]
+     obj2  = amp * exp(1j * phase)
+   [..] only when `mask is not None and self.constraints["apply_fov_mask"]` *)
 Definition polar_pixel (ty : obj_type) (mean_ph : Q) (m : option Q) (p : polar) : polar :=
+  let amp := match ty with
+             | Complex => let a := qclamp (fst p) 0 1 in
+                          match m with Some mk => a * mk | None => a end
+             | _ => 1
+             end in
+  let ph := snd p - mean_ph in
+  (amp, match m with Some mk => ph * mk | None => ph end).
+
+(* the code BEFORE the repair (the snapshot of /repo):
+     masked:  obj2 = amp * mask * exp(1j * phase * mask);  then  obj2 *= mask
+   i.e. amplitude mask^2 for a "pure-phase" object.  Only used by the Example that records the
+   defect (C10_unrepaired_pure_phase_refuted) and by the check when it describes a finding. *)
+Definition polar_pixel_unrepaired (ty : obj_type) (mean_ph : Q) (m : option Q) (p : polar) : polar :=
   let amp := match ty with Complex => qclamp (fst p) 0 1 | _ => 1 end in
   let ph := snd p - mean_ph in
   match m with
@@ -126,9 +139,10 @@ Definition tomo_hard (pos : bool) (shrink : option Q) (obj : list Q) : list Q :=
 (* a FOV mask with every entry in [0,1] (or no mask) *)
 Definition mask_in_01 (mask : option (list Q)) : Prop :=
   match mask with None => True | Some ms => Forall (fun m => 0 <= m <= 1) ms end.
-(* the mask is not applied (flag off or no mask), or it is identically one *)
-Definition mask_unit (cfg : ocfg) (mask : option (list Q)) : Prop :=
-  match use_mask cfg mask with None => True | Some ms => Forall (fun m => m == 1) ms end.
+(* the mask is not applied (flag off or no mask), or it is a binary mask (every entry 0 or 1;
+   includes the all-ones mask) *)
+Definition mask_binary (cfg : ocfg) (mask : option (list Q)) : Prop :=
+  match use_mask cfg mask with None => True | Some ms => Forall (fun m => m == 0 \/ m == 1) ms end.
 (* two amplitude tensors agree entrywise *)
 Definition amps_eq (a b : list (list Q)) : Prop := Forall2 (Forall2 Qeq) a b.
 (* complex-valued object types (the ones that have an amplitude to constrain) *)
